@@ -98,6 +98,10 @@ FUNCS = {
                   lambda a, i: mp.polygamma(i[0], a[0]), 256),
     "LogErfc": (st.one_of(st.floats(-30, 30), logpos(-40, 12), logpos(-40, 4).map(lambda x: -x), around([0.0, 0.5, 8.0, 26.0, 27.0])).map(lambda x: ([x], [])),
                 lambda a, i: mp_logerfc(a[0]), 64),
+    # the scaled complementary error function behind the derivatives of LogErfc (exp(x^2) overflows below -26.6)
+    "Erfcx": (st.one_of(st.floats(-26, 30), logpos(-40, 7), around([0.0, 8.0, 26.0, 27.0])).map(lambda x: ([x], [])),
+              lambda a, i: mp.exp(a[0] * a[0]) * mp.erfc(a[0]), 64),
+    "GammaPsecondDerivative": (gamma_args().filter(lambda t: t[0][1] > 0), lambda a, i: mp.exp(-a[1] + (a[0] - 1) * mp.log(a[1]) - mp.loggamma(a[0])) * ((a[0] - 1) / a[1] - 1), 256),
     "BesselI": (bessel_args(), lambda a, i: mp.besseli(a[0], a[1]), 256),
     "LogBesselI": (bessel_args(), lambda a, i: mp.log(mp.besseli(a[0], a[1])), 256),
     "GammaP": (gamma_args(), lambda a, i: mp.gammainc(a[0], 0, a[1], regularized=True), 256),
